@@ -87,6 +87,8 @@ class Facts:
         self._summary_cache = {}
         self._callee_cache = {}
         self._reach = None
+        self.call_targets = {}
+        self._pred_cache = {}
 
     # ---- library scope
     def lib_fns(self, include_derived=False, include_closures=True):
@@ -544,6 +546,8 @@ def inline_call(facts, fn, args):
         summ = summary(facts, cands[0])
         if summ is not None:
             return subst(summ, cands[0], args)
+        if not tr and cands[0]['locals'][0] == 'bool' and not cands[0]['unsafe']:
+            facts.call_targets[short_callee(fn)] = cands[0]
     return ('call', short_callee(fn), tuple(strip_ref(a) for a in args))
 
 
@@ -759,7 +763,7 @@ def fmt_atom(a):
     return '%s %s %s' % (show(x), op, show(y))
 
 
-def path_atoms(F, bb, include_debug=False):
+def path_atoms(F, bb, include_debug=False, _expand=True):
     """Conjunction of branch conditions that hold whenever control reaches block `bb`:
     for every dominating switch, the condition of the unique out-edge that dominates `bb`."""
     dom = F.dom()
@@ -794,6 +798,55 @@ def path_atoms(F, bb, include_debug=False):
                     out.append(('is', dterm, _other_variant(F, t, vals[0])))
                 else:
                     out.append(('isnot', dterm, vals))
+    if _expand:
+        out = expand_predicates(F.facts, out)
+    return out
+
+
+def pred_summary(facts, f):
+    """Conjunction of atoms (over f's parameters) under which a crate-local bool function returns true,
+    when its true-returns form a single conjunction; else None (the call stays uninterpreted)."""
+    key = f['path']
+    if key in facts._pred_cache:
+        return facts._pred_cache[key]
+    facts._pred_cache[key] = None
+    F = Fn(facts, f)
+    F.dom()
+    contrib = []
+    for bi, b in enumerate(F.blocks):
+        if bi not in F.reach:
+            continue
+        for s in b['s']:
+            if 'lhs' in s and s['lhs']['l'] == 0 and not s['lhs']['proj']:
+                t = norm(F.rvalue_term(s['rv']))
+                if t == ('const', 0):
+                    continue
+                atoms = list(path_atoms(F, bi, _expand=False))
+                if t != ('const', 1):
+                    atoms += flatten_conj([one_atom(term_atoms(t))])
+                contrib.append(atoms)
+        t = b['t']
+        if t['k'] == 'call' and t['dest']['l'] == 0 and not t['dest']['proj']:
+            atoms = list(path_atoms(F, bi, _expand=False)) + [('true', norm(F.call_term(t)), None)]
+            contrib.append(atoms)
+    if len(contrib) == 1 and not any(has_unknown(a[1]) or (isinstance(a[2], tuple) and has_unknown(a[2])) for a in contrib[0]):
+        facts._pred_cache[key] = contrib[0]
+    return facts._pred_cache[key]
+
+
+def expand_predicates(facts, atoms, depth=0):
+    out = []
+    for a in atoms:
+        if a[0] == 'true' and isinstance(a[1], tuple) and a[1] and a[1][0] == 'call' and depth < 2:
+            tgt = facts.call_targets.get(a[1][1])
+            if tgt is not None:
+                ps = pred_summary(facts, tgt)
+                if ps is not None:
+                    args = a[1][2]
+                    sub = [map_atom(x, lambda t_: subst(t_, tgt, args)) for x in ps]
+                    out.extend(expand_predicates(facts, sub, depth + 1))
+                    continue
+        out.append(a)
     return out
 
 
